@@ -806,6 +806,10 @@ def fieldUn [Neg K] (E : ElemOps K) (o : UnOp) (f : Fld K) : Except String (Fld 
   | .real => if f.dt = DT.complex then .ok (unop E.re (fun _ => DT.float) f) else .ok f
   | .imag => if f.dt = DT.complex then .ok (unop E.im (fun _ => DT.float) f) else .error "ValueError"
 
+/-- Field.__abs__: `ab` is `|·|` (a real number also for complex data) -/
+def fieldAbs (ab : K → K) (f : Fld K) : Fld K :=
+  unop ab (fun d => if d = DT.complex then DT.float else d) f
+
 /-- `np.clip(x, lo, hi)` = `minimum(maximum(x, lo), hi)`; a missing bound does nothing -/
 def clipVal (E : ElemOps K) (lo hi : Option K) (x : K) : K :=
   let y := match lo with | some l => if E.lt x l then l else x | none => x
